@@ -6,9 +6,20 @@ import (
 	"slices"
 )
 
+// rangePerm returns the seeded permutation for one map iteration (nil = sorted order).
+//
+//go:norace
+func rangePerm(site string, n int) []int {
+	s := cur()
+	if s == nil || s.inspect || n < 2 || s.cfg.SortedMaps {
+		return nil
+	}
+	return s.mapRand(site).Perm(n)
+}
+
 // RangeMap replaces `range m` over a map with an ordered key type: the iteration order is a
-// PRNG-chosen rotation/permutation of the sorted keys (Go's own order is random per run and
-// would break replay). Deleted entries not yet reached are skipped, as Go does.
+// PRNG-chosen permutation of the sorted keys (Go's own order is random per run and would break
+// replay). Deleted entries not yet reached are skipped, as Go does.
 func RangeMap[M ~map[K]V, K cmp.Ordered, V any](site string, m M) iter.Seq2[K, V] {
 	return func(yield func(K, V) bool) {
 		if len(m) == 0 {
@@ -19,12 +30,12 @@ func RangeMap[M ~map[K]V, K cmp.Ordered, V any](site string, m M) iter.Seq2[K, V
 			keys = append(keys, k)
 		}
 		slices.Sort(keys)
-		if s := cur(); s != nil && !s.inspect && len(keys) > 1 && !s.cfg.SortedMaps {
-			r := s.mapRand(site)
-			for i := len(keys) - 1; i > 0; i-- {
-				j := r.Intn(i + 1)
-				keys[i], keys[j] = keys[j], keys[i]
+		if p := rangePerm(site, len(keys)); p != nil {
+			o := make([]K, len(keys))
+			for i, j := range p {
+				o[i] = keys[j]
 			}
+			keys = o
 		}
 		for _, k := range keys {
 			v, ok := m[k]
